@@ -12,7 +12,7 @@ QUICK = {
     "gen": dict(length=30, weights={"restart": 10, "append": 10, "deliver": 8, "expunge": 8, "store": 12, "copy": 5,
                                     "move": 5, "create": 4, "delete": 3, "rename": 3, "subscribe": 5, "poll": 6,
                                     "search": 0, "idle": 1, "done": 1, "fetch": 2, "fetchbody": 2},
-                world=dict(pack_limit=3, pack_ratio=0.75)),
+                prefill=[0, 0, 7, 9], world=dict(pack_limit=3, pack_ratio=0.75)),
    }
 THOROUGH = {
     "exhaustive": [("1sess-2mbox-4msgs-depth7", dict(depth=7, maxid=4, sess=("A",), mbox=("inbox", "b"), acts=ALL + ["Restart"]))],
@@ -21,7 +21,7 @@ THOROUGH = {
     "gen": dict(length=45, weights={"restart": 10, "append": 10, "deliver": 8, "expunge": 8, "store": 12, "copy": 5,
                                     "move": 5, "create": 4, "delete": 3, "rename": 3, "subscribe": 5, "poll": 6,
                                     "search": 0, "idle": 1, "done": 1, "fetch": 2, "fetchbody": 2},
-                world=dict(pack_limit=3, pack_ratio=0.75)),
+                prefill=[0, 0, 7, 9], world=dict(pack_limit=3, pack_ratio=0.75)),
     "tlc_timeout": 1500,
    }
 
